@@ -8,6 +8,7 @@ usage: mutants.py [--only NAME[,NAME]] [--scale PCT] [--list] [--skip-tests]
 
 Result table: /verif/selftest/mutants_result.json
 """
+import hashlib
 import json
 import os
 import subprocess
@@ -16,6 +17,7 @@ import time
 
 REPO = "/repo"
 VERIF = "/verif"
+CACHE = "/verif/selftest/mutants_tests_cache.json"
 
 # (name, file, old, new, checks expected to catch it (any of), kind)
 # kind: "unsafe" = breaks a property; "refactor" = semantics preserving, every check must stay silent
@@ -364,6 +366,7 @@ def main():
     if sh("git status --porcelain", cwd=REPO).stdout.strip():
         raise SystemExit("/repo has uncommitted changes; refusing to run")
     results = []
+    tests_cache = json.load(open(CACHE)) if os.path.exists(CACHE) else {}
     env_prefix = "VERIF_SCALE=%s " % scale
     try:
         for x in M:
@@ -379,9 +382,15 @@ def main():
             t0 = time.time()
             entry = dict(name=x["name"], kind=x["kind"], file=x["file"], note=x["note"], expected=x["checks"])
             try:
-                if not skip_tests:
+                key = hashlib.sha1((x["file"] + "\0" + x["old"] + "\0" + x["new"]).encode()).hexdigest()
+                if key in tests_cache:
+                    entry["repo_tests"] = tests_cache[key]
+                elif not skip_tests:
                     t = sh("timeout 240 cargo test --offline 2>&1 | grep -E '^test result' | head -1", cwd=REPO)
                     entry["repo_tests"] = t.stdout.strip() or "tests did not finish within 240 s (hang) or did not build"
+                    tests_cache[key] = entry["repo_tests"]
+                    with open(CACHE, "w") as f:
+                        json.dump(tests_cache, f, indent=1)
                 caught, silent, err = [], [], []
                 for c in x["checks"]:
                     r = sh(env_prefix + "./check %s quick" % c, cwd=VERIF)
